@@ -190,3 +190,73 @@ Proof.
   intros [k v ts te tl tt] Hs. unfold supported_kind in Hs. cbn [t_kind t_val] in *. destruct k; try reflexivity.
   destruct v; discriminate Hs.
 Qed.
+
+(* ---------- no CR in the text of a supported token ---------- *)
+Definition nocr (s : list char) : bool := forallb (fun c => negb (c =? 13)) s.
+(* ---------- the text of supported pieces has no CR; a piece has at least one character ---------- *)
+Lemma nocr_app : forall a b, nocr (a ++ b) = nocr a && nocr b.
+Proof. intros. unfold nocr. apply forallb_app. Qed.
+Lemma nocr_escape : forall q v, (q =? 13) = false -> nocr v = true -> nocr (escape q v) = true.
+Proof.
+  intros q v Hq. induction v as [|c v IH]; intro H; [reflexivity|]. unfold nocr in *. cbn [forallb] in H. apply andb_true_iff in H.
+  destruct H as [Hc H]. unfold escape. cbn [flat_map]. fold (escape q v). rewrite forallb_app, (IH H), andb_true_r.
+  destruct (c =? q); cbn [forallb]; rewrite ?Hq, ?Hc; reflexivity.
+Qed.
+Lemma idc_nocr : forall n, forallb is_idc n = true -> nocr n = true.
+Proof.
+  intros n H. unfold nocr. rewrite forallb_forall in *. intros x Hx. specialize (H x Hx).
+  unfold is_idc, is_alnum, is_alpha, is_lower, is_upper, is_digit, in_range in H. lia.
+Qed.
+Lemma supported_nocr : forall t, supported_kind t = true -> nocr (tok_text t) = true.
+Proof.
+  intros [k v ts te tl tt] Hs. unfold supported_kind in Hs. unfold tok_text, tok_text_gen. cbn [t_kind t_val] in *.
+  destruct v as [|n|s|? ? ? ?|txt n|?|c|?].
+  - destruct k; try discriminate Hs; try reflexivity. cbn [kind_text].
+    pose proof (is_keyword_good _ Hs) as G. unfold kw_good in G. apply andb_true_iff in G. destruct G as [_ G]. apply idc_nocr. exact G.
+  - destruct k; try discriminate Hs. apply orb_true_iff in Hs. destruct Hs as [Hs|Hs].
+    + unfold basic_ident_ok in Hs. destruct (validate_basic_identifier n) eqn:EV; [discriminate|]. destruct (vbi_ok _ EV) as [G3 G4].
+      destruct n as [|a n1]; [reflexivity|]. cbn [hd_sat] in G3.
+      assert (H92 : (a =? 92) = false) by (unfold is_alpha, is_lower, is_upper, in_range in G3; lia).
+      unfold ext_ident_text. rewrite H92. cbn [andb]. apply idc_nocr. exact G4.
+    + destruct (ext_ident_shape _ Hs) as [v [En [Hv [Hnl ET]]]]. rewrite ET.
+      assert (Hn : nocr v = true).
+      { subst n. cbn [ext_ident_ok] in Hs. apply andb_true_iff in Hs. destruct Hs as [_ Hs].
+        assert (E : removelast (v ++ [92]) = v) by (apply removelast_last). rewrite E in Hs.
+        unfold nocr. rewrite forallb_forall in *. intros x Hx. specialize (Hs x Hx). unfold nonl in Hs. lia. }
+      change (92 :: escape 92 v ++ [92]) with ([92] ++ escape 92 v ++ [92]). rewrite !nocr_app, (nocr_escape 92 v eq_refl Hn). reflexivity.
+  - destruct k; try discriminate Hs.
+    assert (Hn : nocr s = true).
+    { unfold nocr. rewrite forallb_forall in *. intros x Hx. specialize (Hs x Hx). unfold nonl in Hs. lia. }
+    change (34 :: escape 34 s ++ [34]) with ([34] ++ escape 34 s ++ [34]). rewrite !nocr_app, (nocr_escape 34 s eq_refl Hn). reflexivity.
+  - destruct k; discriminate Hs.
+  - destruct k; try discriminate Hs. unfold plain_int_ok in Hs. apply andb_true_iff in Hs. destruct Hs as [_ Hs].
+    destruct (dec_value 0 txt) as [v|] eqn:EV; [|discriminate]. clear Hs. revert EV. generalize 0 as acc.
+    induction txt as [|b txt IH]; intros acc EV; [reflexivity|]. cbn [dec_value] in EV. unfold nocr. cbn [forallb].
+    destruct (b =? 95) eqn:E95.
+    + replace (b =? 13) with false by lia. apply (IH _ EV).
+    + destruct (is_digit b) eqn:Ed; [|discriminate]. cbv zeta in EV. destruct (10 * acc + (b - 48) <? TWO64); [|discriminate].
+      replace (b =? 13) with false by (unfold is_digit, in_range in Ed; lia). apply (IH _ EV).
+  - destruct k; discriminate Hs.
+  - destruct k; try discriminate Hs. apply andb_true_iff in Hs. destruct Hs as [_ Hc]. unfold nocr. cbn [forallb]. rewrite Hc. reflexivity.
+  - destruct k; discriminate Hs.
+Qed.
+
+(* ---------- what the round-trip proof needs of a token ---------- *)
+(* `tok_good t`: t is not a tool directive, its text holds no CR and is not empty, starts with a character at
+   which get_leading_comments stops, and parse_token reads it back — kind, value, no warning — whenever it is
+   followed by a `rest` accepted by follow_ok.  Proved for the tokens of `supported_kind` (supported_good) and for
+   every token the tokenizer produces from a diagnostic-free input (Lex/RenderFull.v). *)
+Definition tok_good (t : token) : Prop :=
+  is_grave (t_kind t) = false /\ nocr (tok_text t) = true /\
+  (forall last rest, follow_ok last t rest = true -> start_ok (tok_text t ++ rest) = true /\ tok_text t <> []) /\
+  (forall d, cdoc d -> forall F, (length (concat d) < F)%nat -> forall start last st rest,
+     follow_ok last t rest = true -> At d st (tok_text t ++ rest) ->
+     exists st', parse_token d keywords_2008 F true start last st = (Ok (Some (t_kind t, t_val t, None)), st') /\ At d st' rest).
+Lemma supported_good : forall t, supported_kind t = true -> tok_good t.
+Proof.
+  intros t Hs. split; [apply supported_not_grave; exact Hs|]. split; [apply supported_nocr; exact Hs|]. split.
+  - intros last rest Hf. apply (tok_start_ok t last rest Hs Hf).
+  - intros d HD F HF start last st rest Hf HA. apply (pt_supported d HD F HF t start last st rest Hs Hf HA).
+Qed.
+Definition piece_good (p : piece) : Prop := match p with PLex t => tok_good t | _ => True end.
+Definition pieces_good (ps : list piece) : Prop := Forall piece_good ps.
